@@ -191,3 +191,57 @@ package st
 //@   opt: lock-order=first<second
 //@   requires p != nil
 //@   modifies *
+//@ func (*Pair).ReentrantViaCallee
+//@   props: S01
+//@   level: PA
+//@   nosafe
+//@   opt: only=lock-order
+//@   opt: lock-order=Pair.first
+//@   opt: channels=quiet
+//@   requires p != nil
+//@   modifies *
+//@ func (*Pair).ReentrantViaCallback
+//@   props: S01
+//@   level: PA
+//@   nosafe
+//@   opt: only=lock-order
+//@   opt: lock-order=Pair.first
+//@   opt: channels=quiet
+//@   requires p != nil
+//@   modifies *
+//@ func (*Pair).ReentrantViaWrapper
+//@   props: S01
+//@   level: PA
+//@   nosafe
+//@   opt: only=lock-order
+//@   opt: lock-order=Pair.first
+//@   opt: channels=quiet
+//@   requires p != nil
+//@   modifies *
+//@ func (*Pair).CalleeAfterUnlock
+//@   props: S01
+//@   level: PA
+//@   nosafe
+//@   opt: only=lock-order
+//@   opt: lock-order=Pair.first
+//@   opt: channels=quiet
+//@   requires p != nil
+//@   modifies *
+//@ func (*Pair).HarmlessCallback
+//@   props: S01
+//@   level: PA
+//@   nosafe
+//@   opt: only=lock-order
+//@   opt: lock-order=Pair.first
+//@   opt: channels=quiet
+//@   requires p != nil
+//@   modifies *
+//@ func (*Pair).SpawnedCallee
+//@   props: S01
+//@   level: PA
+//@   nosafe
+//@   opt: only=lock-order
+//@   opt: lock-order=Pair.first
+//@   opt: channels=quiet
+//@   requires p != nil
+//@   modifies *
